@@ -12,7 +12,7 @@ fn layout_body<const NV: usize, const NA: usize>(fast_start: bool, audio_track: 
     let mut reordered = false;
     let mut i = 0;
     while i < NV {
-        kani::assume(vpts[i] < (1 << 40));
+        kani::assume(vpts[i] < (1 << 31)); // composition offsets must fit the signed 32-bit field (C16 decides beyond)
         if i > 0 {
             reordered |= vpts[i - 1] > vpts[i];
         }
@@ -95,7 +95,7 @@ macro_rules! lay_h {
         }
     };
 }
-//@ prop=C08 tier=quick cost=300 fns="Mp4Writer::finalize,finalize_standard,SampleTables::from_samples" bound="standard, video-only, 2 samples, all pts < 2^40" unwind=6 stubs="build_moov_box(recording stand-in)" timeout=1200
+//@ prop=C08 tier=quick cost=300 fns="Mp4Writer::finalize,finalize_standard,SampleTables::from_samples" bound="standard, video-only, 2 samples, all pts < 2^31" unwind=6 stubs="build_moov_box(recording stand-in)" timeout=1200
 lay_h!(c08_std_v2, 2, 0, false, false, 8, 6);
 //@ prop=C08 tier=quick cost=300 fns="Mp4Writer::finalize,finalize_fast_start,SampleTables::from_samples" bound="fast start, video-only, 2 samples, moov length 8" unwind=6 stubs="build_moov_box(recording stand-in)" timeout=1200
 lay_h!(c08_fast_v2_pad0, 2, 0, true, false, 8, 6);
